@@ -6,6 +6,7 @@
 From Coq Require Import List ZArith QArith Qcanon Arith Bool.
 From Dimod Require Import Base.Util Model.Poly Model.Samples Model.SSet Model.Store Model.Heap Model.CopyApi Gen.Gen_Copy
   Proofs.StoreFacts Proofs.HeapFacts.
+From Dimod Require Model.Alias Proofs.AliasFacts.
 Import ListNotations.
 Local Open Scope nat_scope.
 
@@ -212,3 +213,60 @@ Example C19_example :
   let s := run nat vf [] [New 1; MkView 0 2; CopyOf 1 (fun x => x); Edit 1 (fun _ => 7); Edit 2 (fun _ => 9)] in
   map (read nat vf s) [0; 1; 2] = [Some 7; Some 207; Some 9].
 Proof. vm_compute. reflexivity. Qed.
+
+(* ---- sample sets on a heap with shared records (Model/Alias.v: the model the alias histories are replayed in) ----
+   relabel_variables / change_vartype with inplace=False on a resolved sample set: every existing object
+   (the receiver included) and every existing record is untouched, and the returned object is new and owns a
+   record that no existing object refers to - so no later in-place edit of either is visible through the other *)
+Theorem C19_sampleset_copy_call_independent : forall h i c offf h' j r ls v inf,
+  AliasFacts.wf h -> nth_error (Alias.objs h) i = Some (Alias.AResolved r ls v inf) -> dcall_inplace c = false ->
+  Alias.acall h i c offf = (h', Some j) ->
+  j = length (Alias.objs h) /\ AliasFacts.old_untouched h h'
+  /\ exists rj ls' v' inf', nth_error (Alias.objs h') j = Some (Alias.AResolved rj ls' v' inf') /\ length (Alias.cells h) <= rj.
+Proof. exact AliasFacts.copy_call_independent. Qed.
+Print Assumptions C19_sampleset_copy_call_independent.
+
+(* an in-place change_vartype only writes the receiver's own record (or a new one) *)
+Theorem C19_sampleset_inplace_change_vartype_local : forall h j v off offf h' raised L M r ls cur inf,
+  nth_error (Alias.objs h) j = Some (Alias.AResolved r ls cur inf) -> L <= r -> r < length (Alias.cells h) -> M <= j ->
+  Alias.chvt_inplace h j v off offf = (h', raised) ->
+  (forall k, k < M -> nth_error (Alias.objs h') k = nth_error (Alias.objs h) k)
+  /\ (forall r', r' < L -> nth_error (Alias.cells h') r' = nth_error (Alias.cells h) r')
+  /\ length (Alias.objs h') = length (Alias.objs h)
+  /\ exists r2 ls2 v2 inf2, nth_error (Alias.objs h') j = Some (Alias.AResolved r2 ls2 v2 inf2) /\ L <= r2.
+Proof. exact AliasFacts.chvt_inplace_local. Qed.
+Print Assumptions C19_sampleset_inplace_change_vartype_local.
+
+(* pending relabels never reach another sample set: the C14 history theorem, restated for this property *)
+Theorem C19_sampleset_relabel_history_frame : forall l h, AliasFacts.good h -> forallb Alias.is_relabel_ev l = true ->
+  AliasFacts.good (AliasFacts.arun h l) /\
+  forall j s, Alias.view h j = Some s ->
+    exists s', Alias.view (AliasFacts.arun h l) j = Some s' /\ rws s' = rws s /\ vt s' = vt s /\ info s' = info s
+               /\ fields s' = fields s /\ (AliasFacts.never_receiver j l -> labels s' = labels s).
+Proof. exact AliasFacts.relabel_history_frame. Qed.
+Print Assumptions C19_sampleset_relabel_history_frame.
+
+(* an in-place change_vartype writes at most one existing record - the receiver's own - and no other object *)
+Theorem C19_sampleset_inplace_change_vartype_writes_own_record_only : forall h i v off offf h' raised r ls cur inf,
+  nth_error (Alias.objs h) i = Some (Alias.AResolved r ls cur inf) ->
+  Alias.chvt_inplace h i v off offf = (h', raised) ->
+  (forall k, k <> i -> nth_error (Alias.objs h') k = nth_error (Alias.objs h) k)
+  /\ (forall r', r' <> r -> r' < length (Alias.cells h) -> nth_error (Alias.cells h') r' = nth_error (Alias.cells h) r').
+Proof. exact AliasFacts.chvt_inplace_writes_own_record_only. Qed.
+Print Assumptions C19_sampleset_inplace_change_vartype_writes_own_record_only.
+
+(* over ANY history of from_future / set_result / reads / relabel_variables (in place or not) / change_vartype with
+   inplace=False, before or after the future's result exists and on any handle: every readable sample set keeps its
+   rows, vartype, info and data vectors for ever, and its labels unless it is itself the receiver of an in-place
+   relabel (the only call excluded is change_vartype(inplace=True), which may write a record shared through from_future) *)
+Theorem C19_sampleset_copy_history_frame : forall l h, AliasFacts.good h -> forallb AliasFacts.is_copy_ev l = true ->
+  AliasFacts.good (AliasFacts.arun h l) /\
+  forall j s, Alias.view h j = Some s ->
+    exists s', Alias.view (AliasFacts.arun h l) j = Some s' /\ rws s' = rws s /\ vt s' = vt s /\ info s' = info s
+               /\ fields s' = fields s /\ (AliasFacts.never_receiver j l -> labels s' = labels s).
+Proof. exact AliasFacts.copy_history_frame. Qed.
+Print Assumptions C19_sampleset_copy_history_frame.
+
+Theorem C19_sampleset_empty_heap_good : AliasFacts.good Alias.aempty.
+Proof. exact AliasFacts.good_empty. Qed.
+Print Assumptions C19_sampleset_empty_heap_good.
